@@ -10,7 +10,7 @@ observation (output bytes, final status, total_in [, decoded lzma_index]) is com
 the one-shot run of the same subject (the prediction of spec/Slicing.tla: SliceIndependent); selected runs are
 recorded call by call for spec/TraceSlicing.tla.
 """
-import ctypes as C, hashlib, json, os, sys, time
+import ctypes as C, hashlib, json, os, signal, sys, time
 
 from . import lz
 
@@ -460,6 +460,7 @@ def run_subject(sub, budget):
     if one["ret"].startswith("INIT_"):
         return res
     cap = one["olen"] + 4096
+    exempt = exempt and one["ret"] != "STREAM_END"      # the exception is for REJECTED input behind a BCJ filter only
     nrec = 0
     for plan in sub["plans"]:
         reps = [plan]
@@ -647,6 +648,9 @@ def main():
                                 ("parse", job.get("parses", []), run_parse)):
             for it in items:
                 cur.seek(0); cur.truncate(); cur.write("%s %s\n" % (kind, it["id"])); cur.flush()
+                # watchdog: SIGALRM is not handled, so an item that does not finish (endless loop inside liblzma,
+                # deadlock of the threaded decoder) kills the process with status -14
+                signal.alarm(int(job.get("item_timeout", 300)))
                 try:
                     r = fn(it)
                 except (RuntimeError, ValueError, AssertionError) as ex:
@@ -654,6 +658,7 @@ def main():
                 r["kind"] = kind
                 out.write(json.dumps(r) + "\n")
                 out.flush()
+        signal.alarm(0)
         cur.seek(0); cur.truncate(); cur.write("done %.1f\n" % (time.time() - t0)); cur.flush()
 
 
